@@ -69,9 +69,14 @@ def strip_helper_rule(ctx, r):
     eb = ExprBuilder(f)
     AB = "grep_matcher::LineTerminator::as_bytes"
     eqs = cond_switches(f, lambda e: is_call(e, "core::cmp::PartialEq::eq") and mentions_call(e, AB), eb)
-    if not eqs:
+    if not eqs and strip_suffix_spelling(ctx, r, f, eb, AB):
+        eqs = None
+    elif not eqs:
         r.bad("helper|test", "without_terminator no longer compares the line's tail with the whole terminator sequence "
               "(LineTerminator::as_bytes): with CRLF a line ending in a bare LF would lose content bytes", fn=f, construct="without_terminator")
+        return
+    if eqs is None:
+        as_bytes_rule(facts, r)
         return
     e = eqs[0][3]
     tail = [x for x in walk(e) if is_call(x, "[T]::get") or is_call(x, "core::ops::index::Index::index")]
@@ -122,6 +127,108 @@ def strip_helper_rule(ctx, r):
         r.bad("helper|crlf-lf", "under a CRLF terminator without_terminator leaves a bare LF on the line: the slow path then lets "
               "`^$`-like patterns match after it, the fast path does not (strategies and paths disagree)", fn=f,
               construct="without_terminator")
+    as_bytes_rule(facts, r)
+
+
+def strip_suffix_spelling(ctx, r, f, eb, AB):
+    """The library spelling of the same function: bytes.strip_suffix(term.as_bytes()), else (CRLF only) bytes.strip_suffix("\n"),
+    else bytes. `[T]::strip_suffix` is by definition 'ends with the whole sequence ⇒ the rest'; what is left to decide is what
+    it is applied to, and which alternatives follow."""
+    facts = ctx.facts
+    SS = "[T]::strip_suffix"
+    units = facts.with_closures(f.path)
+    full, lf = [], []
+    for g in units:
+        ebg = ExprBuilder(g)
+        for c in g.calls():
+            if not c.is_(SS):
+                continue
+            a0, a1 = ebg.operand(c.args[0]), ebg.operand(c.args[1])
+            on_line = any((y.k == "arg" and y[1] == 1) or (y.k == "field" and "bytes" in str(y)) for y in walk(a0))
+            if on_line and mentions_call(a1, AB):
+                full.append((g, c))
+            elif on_line and any(y.k == "const" and y[2] and str(y[2]).strip('b"') in ("\\n",) for y in walk(a1)):
+                lf.append((g, c))
+            else:
+                return False
+    if len(full) != 1 or full[0][0] is not f:
+        return False
+    ret = eb.local(0)
+    through = [x for x in walk(ret) if is_call(x, "core::option::Option::unwrap_or")]
+    if not through:
+        return strip_suffix_by_returns(ctx, r, f, eb, AB, full[0][1], lf)
+    # the result is that strip's answer when there is one, the line itself when nothing applied
+    if not any(is_call(y, SS) and mentions_call(y, AB) for y in walk(through[0][3][0])) or \
+            not any(y.k == "arg" and y[1] == 1 for y in walk(through[0][3][1])):
+        r.bad("helper|result", "without_terminator (strip_suffix spelling) does not fall back to the line itself: `%s`" % show(ret)[:100],
+              fn=f, construct="without_terminator")
+        return True
+    r.ok("helper|test", "strips iff the line ends with term.as_bytes() ([T]::strip_suffix)", fn=f)
+    r.ok("helper|result", "Some(rest) ⇒ rest; nothing applied ⇒ the line unchanged", fn=f)
+    # the bare-LF alternative: only under is_crlf(), only "\n", and only after the full sequence did not apply (or_else)
+    if not lf:
+        r.bad("helper|crlf-lf", "under a CRLF terminator without_terminator leaves a bare LF on the line: the slow path then lets "
+              "`^$`-like patterns match after it, the fast path does not (strategies and paths disagree)", fn=f,
+              construct="without_terminator")
+        return True
+    ok = len(lf) == 1
+    for g, c in lf:
+        crlf_sw = cond_switches(g, lambda e: is_call(e, "grep_matcher::LineTerminator::is_crlf"), ExprBuilder(g))
+        ok = ok and crlf_sw and not guarded(g, [c.bb], crlf_sw, True)
+        if g is not f:
+            ok = ok and any(is_call(y, "core::option::Option::or_else", "core::option::Option::or") and
+                            any(z.k == "closure" and z[1] == g.path for z in walk(y)) and
+                            any(is_call(z, SS) and mentions_call(z, AB) for z in walk(y[3][0])) for y in walk(ret))
+        else:
+            ok = ok and C.dominates(f, full[0][1].bb, c.bb)
+    if ok:
+        r.ok("helper|crlf-lf", "CRLF ∧ the full sequence is absent ∧ line ends in LF ⇒ that LF is stripped", fn=f)
+    else:
+        r.bad("helper|crlf-lf", "without_terminator drops a single byte outside the is_crlf() ∧ last == LF case", fn=f,
+              construct="without_terminator")
+    return True
+
+
+def strip_suffix_by_returns(ctx, r, f, eb, AB, full, lf):
+    """`if let Some(rest) = bytes.strip_suffix(term.as_bytes()) { return rest }` followed by explicit alternatives: every value
+    the function returns is the full strip's payload, the line itself, or something cut shorter — and the latter only behind
+    is_crlf() and a test for LF, after the full sequence was found absent."""
+    SS = "[T]::strip_suffix"
+    rets = [(bb, eb.rvalue(s_["rv"])) for bb, j, s_ in f.stmts()
+            if s_["k"] == "assign" and s_["place"]["l"] == 0 and not s_["place"]["p"]]
+    payload = [(bb, x) for bb, x in rets if any(is_call(y, SS) and mentions_call(y, AB) for y in walk(x))]
+    same = [(bb, x) for bb, x in rets if (bb, x) not in payload and strip(x).k == "arg" and strip(x)[1] == 1]
+    cut = [(bb, x) for bb, x in rets if (bb, x) not in payload and (bb, x) not in same]
+    r.ok("helper|test", "strips iff the line ends with term.as_bytes() ([T]::strip_suffix)", fn=f)
+    if payload and same:
+        r.ok("helper|result", "Some(rest) ⇒ rest; nothing applied ⇒ the line unchanged", fn=f)
+    else:
+        r.bad("helper|result", "without_terminator returns %s" % [show(x)[:40] for _, x in rets], fn=f, construct="without_terminator")
+    if not cut:
+        r.bad("helper|crlf-lf", "under a CRLF terminator without_terminator leaves a bare LF on the line: the slow path then lets "
+              "`^$`-like patterns match after it, the fast path does not (strategies and paths disagree)", fn=f,
+              construct="without_terminator")
+        return True
+    crlf_sw = cond_switches(f, lambda e: is_call(e, "grep_matcher::LineTerminator::is_crlf"), eb)
+    # an LF test in front of the cut: a byte compared / matched against 10, or a strip of "\n"
+    lf_blocks = set(c.bb for g, c in lf if g is f)
+    for i, b in enumerate(f.blocks):
+        t = b["term"]
+        if t["k"] == "switch" and any(v == 10 for v, _ in t.get("targets", []) if isinstance(v, int)):
+            lf_blocks.add(i)
+    for sw_ in cond_switches(f, lambda e: any(x.k == "const" and (x[1] == 10 or "\\n" in str(x[2])) for x in walk(e)), eb):
+        lf_blocks.add(sw_[0])
+    ok = bool(crlf_sw) and not guarded(f, [bb for bb, _ in cut], crlf_sw, True)
+    ok = ok and all(any(C.dominates(f, l, bb) for l in lf_blocks) and C.dominates(f, full.bb, bb) for bb, _ in cut)
+    if ok:
+        r.ok("helper|crlf-lf", "CRLF ∧ the full sequence is absent ∧ line ends in LF ⇒ that LF is stripped", fn=f)
+    else:
+        r.bad("helper|crlf-lf", "without_terminator drops a single byte outside the is_crlf() ∧ last == LF case", fn=f,
+              construct="without_terminator")
+    return True
+
+
+def as_bytes_rule(facts, r):
     g = facts.fn("grep_matcher::LineTerminator::as_bytes")
     ebg = ExprBuilder(g)
     consts = " ".join(str(x[2]) for x in walk(ebg.local(0)) if x.k == "const" and x[2])
